@@ -4,6 +4,7 @@ import (
 	"context"
 	"fmt"
 	"math/big"
+	"strings"
 	"sync"
 	"testing"
 	"time"
@@ -881,6 +882,9 @@ func runScenario(t *testing.T, sc *kernel.Scenario, trace bool) *kernel.Result {
 		if sc.Cfg("lag_burst", 0) == 1 && !s.Failed() {
 			h.lagBurst()
 		}
+		if sc.Cfg("churn", 0) == 1 && !s.Failed() {
+			h.churn()
+		}
 		if sc.Cfg("race_start_stop", 0) == 1 && !s.Failed() {
 			h.raceStartStop()
 		}
@@ -973,6 +977,56 @@ func (h *harness) lagBurst() {
 	for i := range burst {
 		if got[i] != burst[i] {
 			h.s.Fail("C05.relay-order@lagging-client", "events reported while the client was not reading reached it in another order (position %d)", i)
+			return
+		}
+	}
+}
+
+// churn is an epilogue outside the modelled history: a sub-channel that was
+// never watched before is watched and de-registered again 70 times in a row
+// (a long-lived watcher sees thousands of channels come and go). Every start
+// and every stop must succeed: a de-registered channel can be watched again.
+func (h *harness) churn() {
+	h.mu.Lock()
+	ok := h.ch[0].watched && h.ch[0].stopInFlight == 0
+	sub := 0
+	for k := 1; k <= maxSubs; k++ {
+		c := h.ch[k]
+		if c.startInFlight || c.stopInFlight > 0 {
+			ok = false
+		}
+		if sub == 0 && !c.started {
+			sub = k
+		}
+	}
+	h.frozen = true
+	h.mu.Unlock()
+	if !ok || sub == 0 {
+		h.s.Count("probe.churn_not_applicable", 1)
+		return
+	}
+	h.s.Count("fault.watch_stop_churn", 1)
+	tx := mkTx(sub, 0, nil)
+	for round := 1; round <= 70; round++ {
+		var err error
+		var pan string
+		func() {
+			defer recoverInto(&pan)
+			_, _, err = h.w.StartWatchingSubChannel(context.Background(), staticIDs[0], channel.SignedState{Params: staticParams[sub], State: tx.State, Sigs: tx.Sigs})
+		}()
+		if pan == "" && err != nil && strings.Contains(err.Error(), "Subscribe fails (fault plan)") {
+			continue // the run's scripted Subscribe failure fell into this round
+		}
+		if pan != "" || err != nil {
+			h.s.Fail("C05.rewatch-failed", "round %d of watching and de-registering %s again and again: StartWatchingSubChannel failed: %s%s", round, chName(sub), errText(err), pan)
+			return
+		}
+		func() {
+			defer recoverInto(&pan)
+			err = h.w.StopWatching(context.Background(), staticIDs[sub])
+		}()
+		if pan != "" || err != nil {
+			h.s.Fail("C05.restop-failed", "round %d of watching and de-registering %s again and again: StopWatching failed: %s%s", round, chName(sub), errText(err), pan)
 			return
 		}
 	}
